@@ -94,6 +94,47 @@ type closure struct {
 	Env []value
 }
 
+// symstr is a string some of whose bytes are symbolic (length concrete).
+type symstr []value
+
+func (s symstr) hasSym() bool {
+	for _, b := range s {
+		if isSym(b) {
+			return true
+		}
+	}
+	return false
+}
+
+// strBytes returns the bytes of a string or symstr.
+func strBytes(v value) ([]value, bool) {
+	switch v := v.(type) {
+	case string:
+		out := make([]value, len(v))
+		for k := 0; k < len(v); k++ {
+			out[k] = v[k]
+		}
+		return out, true
+	case symstr:
+		return []value(v), true
+	}
+	return nil, false
+}
+
+// mkStr builds a string value from bytes (a plain string when all concrete).
+func mkStr(bs []value) value {
+	for _, b := range bs {
+		if isSym(b) {
+			return symstr(append([]value(nil), bs...))
+		}
+	}
+	out := make([]byte, len(bs))
+	for k, b := range bs {
+		out[k] = b.(byte)
+	}
+	return string(out)
+}
+
 // nativeFunc is a callable implemented by the engine.
 type nativeFunc struct {
 	name string
@@ -115,6 +156,12 @@ func isSym(v value) bool { _, ok := v.(sym); return ok }
 // equals returns x == y according to Go's equivalence relation for type t,
 // as a bool or a symbolic bool.
 func (i *interpreter) equals(t types.Type, x, y value) value {
+	if _, ok := x.(symstr); ok {
+		return i.strEq(x, y)
+	}
+	if _, ok := y.(symstr); ok {
+		return i.strEq(x, y)
+	}
 	if sx, ok := x.(sym); ok {
 		return i.symEq(sx.k, x, y)
 	}
@@ -203,6 +250,25 @@ func (i *interpreter) equals(t types.Type, x, y value) value {
 	// case is only reachable if one of x or y is literally nil
 	// (handled in eqnil) or via interface{} values.
 	panic(targetPanic{iface{i.runtimeErrorString, fmt.Sprintf("runtime error: comparing uncomparable type %s", t)}})
+}
+
+func (i *interpreter) strEq(x, y value) value {
+	a, ok1 := strBytes(x)
+	b, ok2 := strBytes(y)
+	if !ok1 || !ok2 {
+		panic(fmt.Sprintf("strEq of %T, %T", x, y))
+	}
+	if len(a) != len(b) {
+		return false
+	}
+	var acc value = true
+	for k := range a {
+		acc = i.andv(acc, i.equals(types.Typ[types.Uint8], a[k], b[k]))
+		if acc == false {
+			return false
+		}
+	}
+	return acc
 }
 
 // andv is && over bool-or-symbolic-bool values.
@@ -306,6 +372,9 @@ func writeValue(buf *bytes.Buffer, v value) {
 
 	case sym:
 		fmt.Fprintf(buf, "<sym %s>", v.t.String())
+
+	case symstr:
+		fmt.Fprintf(buf, "<symstr len %d>", len(v))
 
 	case *smap:
 		buf.WriteString("map[")
@@ -488,6 +557,35 @@ func (i *interpreter) mapDelete(m *smap, k value) {
 	if idx >= 0 {
 		m.ents = append(m.ents[:idx:idx], m.ents[idx+1:]...)
 	}
+}
+
+// symstrIter ranges over a string with symbolic bytes; non-ASCII bytes are
+// outside the model (the path is abandoned as unsupported).
+type symstrIter struct {
+	i   *interpreter
+	s   symstr
+	pos int
+}
+
+func (it *symstrIter) next() tuple {
+	if it.pos >= len(it.s) {
+		return tuple{false, nil, nil}
+	}
+	b := it.s[it.pos]
+	k := it.pos
+	it.pos++
+	if sb, ok := b.(sym); ok {
+		st := it.i.st
+		if it.i.decide(st.BVCmp("bvule", st.BVConst(0x80, 8), sb.t)) {
+			it.i.abort("unsupported", "non-ASCII byte in a symbolic string")
+		}
+		return tuple{true, k, it.i.mkSym(st.ZExt(sb.t, 32), types.Int32)}
+	}
+	c := b.(byte)
+	if c >= 0x80 {
+		it.i.abort("unsupported", "non-ASCII byte in a symbolic string")
+	}
+	return tuple{true, k, int32(c)}
 }
 
 type smapIter struct {
